@@ -83,6 +83,14 @@ protected:
     enum class ConsistencyAction { BacktrackToZero, ReturnUndef, SkipToSearchBegin, NoOp };
     int search_counter;
     bool stopFlag{false};
+#ifdef OPENSMT_VERIF
+    bool verifDerivedClause{false}; // clauses added while set are traced as derived ("d"), not original ("o")
+    struct VerifDerivedScope {
+        CoreSMTSolver & solver;
+        explicit VerifDerivedScope(CoreSMTSolver & s) : solver(s) { solver.verifDerivedClause = true; }
+        ~VerifDerivedScope() { solver.verifDerivedClause = false; }
+    };
+#endif
 public:
 
     // Constructor/Destructor:
